@@ -3,7 +3,7 @@
 // C01 / C20 / C19 (third batch of hand-written helpers, arbitrary table bytes): the IFT mapping-table helpers the patch
 // selection reads (applied-entry bitmap, glyph map iteration, feature-map record sizes, glyph-keyed patch payload iteration)
 // and the COLR v0 lookups.
-#[cfg(kani)]
+#[cfg(all(kani, feature = "ift"))]
 mod verif_c01_helpers3 {
     use crate::{FontData, FontRead, FontReadWithArgs};
     use types::GlyphId;
